@@ -289,6 +289,21 @@ def check(ctx):
                          "on a cache hit %s is still reached and can mutate the filesystem" % c.best, c.file, c.line))
         if not bad:
             r2.ok("%s: %d blocks run only on a cache hit; none reaches a filesystem mutator" % (short_path(f.id), len(hit_blocks)))
+        # ... and nothing is written on the way *to* the check either: a mutating step that control passes before it asks the cache runs on a hit
+        # as well (dependency-graph files rewritten with identical bytes and a fresh mtime on every unchanged run)
+        before = {b for b in f.reach_blocks if nr.bb in blocks_reachable_from(f, b) and b != nr.bb}
+        pre = []
+        for b in sorted(before):
+            c = f.call_at(b)
+            if c is None or c is nr:
+                continue
+            if is_fs_mut(c) or any(fsreach(t) for t in P.targets(c)):
+                pre.append(c)
+        for c in pre:
+            r2.bad(V(r2.id, f.id, "mutation-before-cache-check:%s" % short_path(c.best), "%s runs %s before it consults the cache: the step is repeated on a cache hit "
+                     "and touches the output directory of an unchanged project" % (short_path(f.id), short_path(c.best)), c.file, c.line))
+        if not pre:
+            r2.ok("%s: no filesystem mutation on the way to the cache check" % short_path(f.id))
         # does the function return from the hit region without generating?
         gen_blocks = {c.bb for c in f.calls if c.path == GEN_MODELS}
         returns_from_hit = False
